@@ -1,4 +1,4 @@
-import Mustache.Model.World
+import Mustache.Model.WorldStep
 /-! # Process model (C17): several worlds in one process
 
 The process-global part of /repo/src/mustache/ecs/world.cpp — the world-id allocator — together with the
@@ -85,44 +85,9 @@ def Proc.pending (p : Proc) : List Nat := p.reserved.filter (fun r => !p.liveIds
 /-- what counts against the 2^10 ids of the handle layout: live worlds + outstanding reservations -/
 def Proc.load (p : Proc) : Nat := p.worlds.length + p.pending.length
 
-/-! ## the operations of one world, typed (the `WM`-level functions of Model/World.lean behind the op-file grammar) -/
-
-inductive WOp where
-  | create (t : Nat) (mask : Mask) (sh : Shared)
-  | assign (t : Nat) (e : Handle) (c : CompId) (v : Option Nat)
-  | remove (t : Nat) (e : Handle) (c : CompId)
-  | destroy (t : Nat) (e : Handle)
-  | destroyNow (t : Nat) (e : Handle)
-  | update
-  | lock
-  | unlock
-  | clone (e : Handle)
-  | sassign (e : Handle) (sid value : Nat)
-  | sremove (e : Handle) (sid : Nat)
-  | clearArch (ai : Nat)
-  | buildNew (adds : List (CompId × Option Nat))
-  | buildUpdate (e : Handle) (adds : List (CompId × Option Nat)) (rems : Mask)
-  | addDep (c : CompId) (extra : Mask)
-
-def WM.applyOp (info : CompId → CompInfo) (w : WM) : WOp → WM
-  | .create t mask sh => (w.create info t mask sh).1
-  | .assign t e c v => (w.assign info t e c v).1
-  | .remove t e c => (w.removeComp info t e c).1
-  | .destroy t e => w.destroy t e
-  | .destroyNow t e => (w.destroyNow info t e).1
-  | .update => (w.update info).1
-  | .lock => w.lock
-  | .unlock => (w.unlock info).1
-  | .clone e => (w.clone e).1
-  | .sassign e sid value => (w.sassign info e sid value).1
-  | .sremove e sid => (w.sremove info e sid).1
-  | .clearArch ai => (w.clearArch info ai).1
-  | .buildNew adds => (w.buildNewU info adds).1
-  | .buildUpdate e adds rems => (w.buildUpdateU info e adds rems).1
-  | .addDep c extra => { w with deps := addDependency w.deps c extra }
-
-/-- a typed world operation addressed to the world named `slot` -/
-def POp.ofW (info : CompId → CompInfo) (slot : Nat) (op : WOp) : POp := .onWorld slot (fun w => w.applyOp info op)
+/-- an operation of the world model (`Op Handle` / `WM.step`, Model/WorldStep.lean: the alphabet the single-world checks
+    C01-C13 run against the library) addressed to the world named `slot` -/
+def POp.ofW (info : CompId → CompInfo) (slot : Nat) (op : Op Handle) : POp := .onWorld slot (fun w => (w.step info op).1)
 
 /-! ## what the code sees of a handle: the packed 64-bit value (`Entity::reset` ORs the unmasked fields) -/
 
